@@ -74,7 +74,8 @@ def run(tier, seed):
                               "shrink-to-nothing", "foreign-limit-shrink",
                               "foreign-limit-refused",
                               "shrink-regrow-before-child-sync",
-                              "auto-suspend-inactive-children")),
+                              "auto-suspend-inactive-children",
+                              "multi-class-lost-and-regained")),
         theme_nums={"multi": (6, 80), "mix": (4, 60), "foreign": (6, 80),
                     "deep": (4, 60), "autosus": (4, 60)})
 
